@@ -160,7 +160,7 @@ theorem hfold_block (p : Nat) (b : List HLine) (hwf : wfHBlock p b = true) (st :
   match b, hwf with
   | .head q :: tl, hwf =>
     simp only [wfHBlock, Bool.and_eq_true, beq_iff_eq] at hwf
-    obtain ⟨⟨hq, _⟩, hall⟩ := hwf
+    obtain ⟨hq, hall⟩ := hwf
     subst hq
     have htl : ∀ l ∈ tl, l.isBody = true := List.all_eq_true.mp hall
     cases hb : st.blocks with
